@@ -245,8 +245,13 @@ def _task(t):
     import pharmpy.modeling as pm
     label, fname, kw = t
     if label not in _M:
-        _M[label] = start_model(label)
+        try:
+            _M[label] = start_model(label)
+        except Exception:  # noqa  (a derived start model that cannot be built is skipped)
+            _M[label] = None
     m = _M[label]
+    if m is None:
+        return (label, fname, repr(kw), 'nostart', [], [])
     before = snapshot(m)
     status = 'ok'
     ill = []
@@ -290,13 +295,34 @@ def results_wellformed(nproc: int = 8, known_only: bool = False):
     return True
 
 
+# second level: the function is applied to a model that already carries the product of a data function (a derived
+# column may make a function take another path, e.g. skip the copy it normally makes)
+DERIVED = {
+    'pheno+tad': ('pheno', 'add_time_after_dose', {}),
+    'pheno+admid': ('pheno', 'add_admid', {}),
+    'pheno+cmt': ('pheno', 'add_cmt', {}),
+    'clock+tad': ('clock', 'add_time_after_dose', {}),
+    'clock+translated': ('clock', 'translate_nmtran_time', {}),
+    'pheno+dropped': ('pheno', 'drop_columns', {'column_names': ['FA2'], 'mark': True}),
+}
+_start_model_plain = start_model
+
+
+def start_model(label):  # noqa: F811
+    if label in DERIVED:
+        import pharmpy.modeling as pm
+        base, fn, kw = DERIVED[label]
+        return getattr(pm, fn)(_start_model_plain(base), **kw)
+    return _start_model_plain(label)
+
+
 def no_mutation(nproc: int = 8):
-    tasks = [(label, fn, kw) for label in START for fn, kw in functions()]
+    tasks = [(label, fn, kw) for label in START + list(DERIVED) for fn, kw in functions()]
     with mp.Pool(nproc) as pool:
         res = pool.map(_task, tasks, chunksize=4)
     bad = [(l, f, k, c) for l, f, k, s, c, _ in res if c]
     called = sum(1 for r in res if r[3] == 'ok')
-    if called < 100:
+    if called < 300:
         raise AssertionError(f'only {called} calls succeeded: the probe is not exercising the API')
     if bad:
         raise AssertionError('input model modified by: ' + '; '.join(f'{f}({k}) on {l}: {c}' for l, f, k, c in bad[:6]))
@@ -306,7 +332,7 @@ def no_mutation(nproc: int = 8):
 if __name__ == '__main__':
     import time
     t0 = time.time()
-    tasks = [(label, fn, kw) for label in START for fn, kw in functions()]
+    tasks = [(label, fn, kw) for label in START + list(DERIVED) for fn, kw in functions()]
     with mp.Pool(8) as pool:
         res = pool.map(_task, tasks, chunksize=4)
     import collections
